@@ -149,7 +149,12 @@ func (self *Compiler) compileStmt(node ast.AnalyzedStatement) {
 		self.compileExpr(node.IterExpression)
 
 		// Convert into iterator
-		self.insert(newPrimitiveInstruction(Opcode_Clone), node.Range) // NOTE: this call to clone fixes everything
+		// Ranges and strings are cloned so that the loop has an iteration position of its own. A list is not:
+		// its iterator takes a snapshot of the element sequence, and a deep copy would hide the loop's changes
+		// to the elements (`for o in objs { o.v = 9; }`) from the list.
+		if node.IterExpression.Type().Kind() != ast.ListTypeKind {
+			self.insert(newPrimitiveInstruction(Opcode_Clone), node.Range)
+		}
 		self.insert(newPrimitiveInstruction(Opcode_IntoIter), node.Range)
 		iterName := self.mangleVar(fmt.Sprintf("$iter_%s", node.Identifier.Ident()))
 		self.insert(newOneStringInstruction(Opcode_SetVarImm, iterName), node.Range)
